@@ -482,6 +482,57 @@ pub fn gen_random(seed: u64, idx: u64) -> Plan {
             note: format!("random idx={idx} {n} panicking handlers in a row"),
         };
     }
+    if r.chance(1, 25) {
+        // A server whose version policy takes the version from a header (no
+        // endpoint is restricted to a version range): requests whose version
+        // header is missing or not a version are malformed.
+        let with_version = |bytes: Vec<u8>, v: Option<&[u8]>| -> Vec<u8> {
+            let at = bytes.windows(2).position(|w| w == b"\r\n").map(|p| p + 2).unwrap_or(0);
+            let mut out = bytes[..at].to_vec();
+            if let Some(v) = v {
+                out.extend_from_slice(b"x-api-version: ");
+                out.extend_from_slice(v);
+                out.extend_from_slice(b"\r\n");
+            }
+            out.extend_from_slice(&bytes[at..]);
+            out
+        };
+        let mut cs = Vec::new();
+        for i in 0..r.usize_in(1, 2) {
+            let mut c = blank_conn(10_000 + i as u16);
+            c.start_ms = r.range(0, 50);
+            for j in 0..r.usize_in(1, 3) {
+                let w = WorkReq { nonce, steps: r.range(0, 2) as u32, step_ms: r.range(0, 40), panic_at: 0, resp_bytes: 50, body: None, chunked: None };
+                nonce += 1;
+                c.steps.push(Step::Send { data: Blob(with_version(w.bytes(), Some(b"1.0.0"))), completes: Some(j) });
+                c.steps.push(Step::AwaitResponses { count: j + 1, max_ms: 60_000 });
+                c.reqs.push(w.plan());
+            }
+            cs.push(c);
+        }
+        for i in 0..r.usize_in(1, 5) {
+            let mut c = blank_conn(11_000 + i as u16);
+            c.start_ms = r.range(0, 200);
+            let w = WorkReq { nonce, steps: 0, step_ms: 0, panic_at: 0, resp_bytes: 10, body: None, chunked: None };
+            let bad: Option<&[u8]> = *r.pick(&[None, Some(&b"garbage"[..]), Some(&b"\xff\xfe"[..]), Some(&b"1.0"[..]), Some(&b"10.0.0"[..]), Some(&b""[..]), Some(&b"1.0.0.0"[..]), Some(&b"v1.0.0"[..])]);
+            c.steps.push(Step::Send { data: Blob(with_version(w.bytes(), bad)), completes: Some(0) });
+            c.steps.push(Step::AwaitResponses { count: 1, max_ms: 35_000 });
+            c.steps.push(Step::Close);
+            c.reqs.push(hostile("bad_version_header", true, nonce));
+            nonce += 1;
+            cs.push(c);
+        }
+        return Plan {
+            property: "C18".into(),
+            seed: mix(seed, idx),
+            server: ServerPlan { mode, body_limit: 1024, api: ApiKind::ErrVersioned, rt_override: None, tls: false },
+            conns: cs,
+            shutdown: None,
+            accept_errs: vec![],
+            final_health: false,
+            note: format!("random idx={idx} version policy without versioned routes"),
+        };
+    }
     let nh = r.usize_in(1, 2);
     for i in 0..nh {
         let mut c = healthy_conn(&mut r, &mut nonce, 10_000 + i as u16, span);
